@@ -378,11 +378,8 @@ var classifiers = []vrt.Classifier{
 	// json.Number / gen.Big: the inline digit loops switch to big when I reaches MaxInt64/10.
 	// The repository's own tests pin this (oj/parser_test.go expects a json.Number for
 	// 9223372036854775807), so it cannot be repaired without editing the test suite.
-	// C02-K2: an escaped surrogate pair ("\\ud83d\\ude00") is decoded as two U+FFFD instead of
-	// one code point by all parsers and tokenizers (each \\uXXXX is encoded on its own).
-	{ID: "C02-K2", Match: func(d vrt.Disc, c *vrt.Ctx) bool {
-		return (d.Kind == "string" || d.Kind == "key") && hasTag(d, "pair-as-two-replacements")
-	}},
+	// (C02-K2, escaped surrogate pairs decoded as two U+FFFD, was repaired in 91f992e: the tag
+	// "pair-as-two-replacements" only describes a violation now, nothing claims it)
 	{ID: "C02-K1", Match: func(d vrt.Disc, c *vrt.Ctx) bool {
 		// with NumConvFloat64 the number that was kept as text is then handed out as a float64
 		return d.Kind == "number-int-required" && hasTag(d, "int64-top-decade") &&
